@@ -74,7 +74,8 @@ def main(tier: str, seed: int) -> int:
     v = Verdict(PROP, tier, seed, 'model_checking')
     fams = families(tier)
     agg = reffam.run_families(
-        fams, seed, max_replay=220 if tier == 'quick' else 6000)
+        fams, seed, max_replay=220 if tier == 'quick' else 6000,
+        nseeds=1 if tier == 'quick' else 2)
     reffam.report(v, agg, fams, CATS)
     v.assumptions = [
         'usage assumption UsageOK: a step is only taken when gradients exist',
